@@ -25,10 +25,46 @@ holding the main lock, and unlocked while clocks run) are checked against the
 closed interval [call time, return time].  Half of the rounds forward the
 datagrams to the library's own UDP port: OscFunc callbacks must receive
 time == t + L (2**-31 s).
+Routines on AppClock have an independent expectation too (round 9): AppClock
+keeps no exact logical time - every (re)scheduling is relative to the physical
+present of the call - so the expectation is the interval [present before the
+call + delta, present after it + delta] around `AppClock.sched(delta, r)` /
+`r.play(AppClock)` (called from the test thread with and without the library
+lock, and from a SystemClock routine) and, for later steps, [return of the
+previous step + delta, start of the next wake-up the AppClock thread made +
+delta].  3-6 such routines per round are due at DIFFERENT times 4-55 ms apart
+while a plain thread, a slow task or the scheduling thread itself keeps the
+library lock for 20-130 ms, so that ONE late tick of the AppClock thread finds
+several of them expired: every bundle must carry its OWN routine's scheduled
+time plus latency (class: tasks of one clock that are due at different times
+but served by one wake-up cycle; the self-consistency oracle cannot see a
+batch that is given one common time, because clock.seconds shows the same
+wrong value).
 
 NRT shards (vf/c07_nrt.py): generated programs, main.process(tail) ->
 .list / .raw compared with the program's send log (time, stable order, tail
 marker, raw == concatenation of length-prefixed encodings of list).
+An eighth of the programs (round 9) also send through the clumping paths:
+`NetAddr.send_clumped_bundles`, `with server.bind():` (server.latency in
+{0, 0.0, 0.05, 0.2, 1, None, -1, ...}; messages enter the block through
+send_msg / send_bundle / send_clumped_bundles of server.addr) and
+`with BundleNetAddr(addr):`, from routines at known times and from outside
+routines, with sets of messages whose encoded size (own OSC 1.0 size model in
+vf/c07_gen.py) is small, exactly 65504 bytes -8/-4/0/+4/+8, far above it
+(66-140 kB in messages of 1-7 kB) or contains single messages larger than the
+8 kB pieces; 6% of the blocks are left by an exception (nothing may be listed).
+Oracle: every message of the send is listed exactly once and in send order;
+a set that fits one datagram is ONE entry at exactly logical time + latency;
+an oversized set is a sequence of entries at non-decreasing times within
+[logical time + latency, + (pieces + 1) ns] (documented: 'one nanosecond later
+each'; the piece boundaries are the library's choice); the entries then take
+part in the order / tail marker / raw comparisons like every other bundle.
+Class: sends that reach the score through another entry point than
+send_msg / send_bundle, and sends that become several bundles.
+The RT shards send such sets too (2% of all sends, routines and main thread):
+1..n datagrams captured at _send, every message once and in order, one
+datagram at exactly (send instant + latency) when the set fits, else
+non-decreasing timetags within (n + 1) ns after it.
 """
 
 from vf.common import split
@@ -40,7 +76,9 @@ RULE = ("RT: rounds of 3-8 routines x 3-10 sends on SystemClock / AppClock / "
         "timed bundle and the routine woke more than 0.1 ms late.  NRT: "
         "programs of 1-4 routines (children to depth 2) x 1-7 steps on "
         "SystemClock / AppClock / TempoClocks, 0-3 sends outside routines, "
-        "tail in {0,0.1,0.5,2,10}, bundle lists sent twice; a score is "
+        "tail in {0,0.1,0.5,2,10}, bundle lists sent twice, an eighth with "
+        "sends through send_clumped_bundles / bind() blocks around the "
+        "65504-byte limit; a score is "
         "non-trivial when it has >= 2 sends and at least one tie in time; "
         "distinct = hash of the expected entries")
 ASSUMPTIONS = [
@@ -70,6 +108,20 @@ ASSUMPTIONS = [
     "routines that do not finish within 15 s of a round are not judged "
     "(bounded progress is C08's subject); only then is the quiet phase "
     "skipped",
+    "AppClock: the wake-up time of a routine is (physical present of the "
+    "scheduling call + delta), bracketed by two readings of "
+    "main.elapsed_time() around the call (first step) or by the return of "
+    "the previous step and the start of the next wake-up made by the "
+    "AppClock thread (later steps); float addition and int() are monotone, "
+    "so the timetag interval needs no tolerance; time.time() does not step "
+    "back in between (such records are skipped)",
+    "clumping: whether a set of messages is split is decided by its encoded "
+    "size (own size model, verified against the reference encoder) against "
+    "the documented 65504 bytes; where it is split is not judged; entries "
+    "without elements (the library emits an empty piece in front of a "
+    "message larger than 8 kB) are counted as observed_* and tolerated only "
+    "when such a message was sent; an exception out of a clumping send of "
+    "valid messages is a violation (the bundles are not in the score)",
     "OscScore.finish() called from inside a routine is reachable only via "
     "private attributes; 8% of the programs do it from a routine that runs "
     "after everything else (t = 1000 s) and are judged like the others",
@@ -91,6 +143,14 @@ MIN_COUNTERS = {
     'rt_independent_timetags_compared/SystemClock': 100,
     'rt_independent_timetags_compared/TempoClock': 60,
     'rt_independent_wakeups_batched_with_other_times': 30,
+    'rt_independent_timetags_compared/AppClock': 60,
+    'rt_independent_timetags_compared/AppClock/first-step': 20,
+    'rt_independent_timetags_compared/AppClock/later-step': 25,
+    'rt_independent_timetags_compared/AppClock/expectation-narrower-than-2ms': 30,
+    'rt_appclock_wakeups_batched_with_other_times': 20,
+    'rt_clump_sends_checked/routine': 8,
+    'rt_clump_sends_checked/oversized': 6,
+    'rt_clump_timetags_compared': 30,
     'rt_main_thread_timetags_compared': 100,
     'rt_incoming_compared': 50,
     'nrt_scores': 200,
@@ -99,13 +159,22 @@ MIN_COUNTERS = {
     'nrt_tail_markers_checked': 200,
     'nrt_scores_with/ties': 50,
     'nrt_scores_with/nested': 50,
+    'nrt_clump_sends/clumped': 40,
+    'nrt_clump_sends/bind': 40,
+    'nrt_clump_sends/bind-addr': 15,
+    'nrt_clump_sends/outside-routine': 6,
+    'nrt_clump_sends_checked/one-datagram': 80,
+    'nrt_clump_sends_checked/oversized': 30,
+    'nrt_clump_sends_checked/within-8-bytes-of-limit': 20,
+    'nrt_clump_pieces_checked': 400,
+    'nrt_bind_blocks_left_by_exception': 4,
 }
 
 
 def plan(tier, seed):
     quick = tier == 'quick'
     shards = []
-    nrt_total = 3000 if quick else 200_000
+    nrt_total = 2400 if quick else 200_000
     secs = 35 if quick else 560
     for p, (f, n) in enumerate(split(nrt_total, 3 if quick else 6)):
         shards.append({'name': f'nrt{p}', 'mode': 'nrt', 'kind': 'nrt',
